@@ -31,9 +31,9 @@ class GroupProducer(DateTimeProducerBase):
 
         for _ in not_infinite_loop():  # noqa: RET503
 
-            values = sorted(p.get_next(next_dt) for p in self._producers)
-            next_dt = values[0]
+            # Only the earliest value may be returned: if the filter rejects it a later occurrence of the same
+            # producer can still be earlier than the values of the other producers.
+            next_dt = min(p.get_next(next_dt) for p in self._producers)
 
-            for value in values:
-                if value > dt and ((f := self._filter) is None or f.allow(value.to_system_tz())):
-                    return value
+            if next_dt > dt and ((f := self._filter) is None or f.allow(next_dt.to_system_tz())):
+                return next_dt
